@@ -3,7 +3,7 @@ import pk, src
 from common import jhash, first_diff
 from pkgrun import *
 
-PROF = profile(tokens=True, straddle_ranges=0.15, no_textbox_in_link=True, math_markup=True, p_math=0.12, p_comment_marker=0.2, p_comments=0.92,
+PROF = profile(tokens=True, straddle_ranges=0.15, math_markup=True, p_math=0.12, p_comment_marker=0.2, p_comments=0.92,
                p_textbox=0.0, p_vmerge=0.3, p_table=0.3, p_style=0.45, p_list=0.35, p_text=0.55, inlines=(1, 5), p_sdt_cell=0.0, p_block_misc=0.1)
 RULE = ('documents with 0-8 comment ranges starting and ending at arbitrary run boundaries, spanning paragraphs / cells / tables, nested '
         'and overlapping, in heading and list paragraphs, inside hyperlinks (rounded outwards to the link, which is one run), with count mismatches and missing comments part; both html settings; checker: '
